@@ -15,7 +15,7 @@
   "quick": true,
   "step": "S5 probe: review, pending trim answered n"
  },
- "detail": "C13/C04: session ['--inline-snapshot=review'] env={} stdin=b'n\\nn\\nn\\nn\\n' approved no trim but: ['- .inline-snapshot/external/8b2446c4dddcf01cb995f71d9dba6df8df478d3a9ed4a5b81dbc1c20a610bcbd.txt (deleted)']\n+------------------------------------------------------------------------------+\nDo you want to trim these snapshots? [y/n] (n): \nremoved 1 unused externals\n\n\n\n==================================== PASSES ====================================\n------------ generated xml file: /tmp/bsess-out-a9cn6hlu/junit.xml -------------\n\u001b[36m\u001b[1m=========================== short test summary info ============================\u001b[0m\n\u001b[32mPASSED\u001b[0m test_e.py::\u001b[1mtest_ext\u001b[0m\n\u001b[32mPASSED\u001b[0m test_e.py::\u001b[1mtest_t\u001b[0m\n\u001b[32m============================== \u001b[32m\u001b[1m2 passed\u001b[0m\u001b[32m in 1.35s\u001b[0m\u001b[32m ===============================\u001b[0m"
+ "detail": "C13/C04: session ['--inline-snapshot=review'] env={} stdin=b'n\\nn\\nn\\nn\\n' approved no trim but: ['- .inline-snapshot/external/8b2446c4dddcf01cb995f71d9dba6df8df478d3a9ed4a5b81dbc1c20a610bcbd.txt (deleted)']\n+------------------------------------------------------------------------------+\nDo you want to trim these snapshots? [y/n] (n): \nremoved 1 unused externals\n\n\n\n==================================== PASSES ====================================\n------------ generated xml file: /tmp/bsess-out-95_u4fvh/junit.xml -------------\n\u001b[36m\u001b[1m=========================== short test summary info ============================\u001b[0m\n\u001b[32mPASSED\u001b[0m test_e.py::\u001b[1mtest_ext\u001b[0m\n\u001b[32mPASSED\u001b[0m test_e.py::\u001b[1mtest_t\u001b[0m\n\u001b[32m============================== \u001b[32m\u001b[1m2 passed\u001b[0m\u001b[32m in 3.39s\u001b[0m\u001b[32m ===============================\u001b[0m"
 }
 """
 
